@@ -16,7 +16,11 @@ Clause(ev, name, cond) == IF cond THEN TRUE ELSE PrintT(<<"REJECT", ev.sid, ev.s
 EmptyMemo == [k \in {} |-> "x"]
 
 \* stop classes logged as "T" / "F" / "A" (ambiguous: within rounding of the threshold)
-Resolutions(cls) == { st \in [1..Len(cls) -> BOOLEAN] : \A k \in 1..Len(cls) : (cls[k] = "T" => st[k]) /\ (cls[k] = "F" => ~st[k]) }
+\* Some resolution of the ambiguous classes explains the report iff the one most favourable to the report does:
+\* ambiguous iterations before the reported stop did not stop, the reported one did (early stop) / decided `converged` (limit).
+Favourable(cls, r, m) == LET early == r.lenResults = r.numIter + 1 IN
+  [k \in 1..Len(cls) |-> IF cls[k] = "T" THEN TRUE ELSE IF cls[k] = "F" THEN FALSE
+                          ELSE (early /\ k = r.numIter) \/ (~early /\ k = m /\ r.converged)]
 RepMatches(out, r) ==
   /\ r.numIter = out.numIter /\ r.converged = out.converged /\ r.lenResults = out.lenResults /\ r.lastComplete = out.lastComplete
   /\ (r.rows = -1 \/ r.rows = out.rows)
@@ -49,7 +53,7 @@ TSetFixed(ev) ==
 TOptCall(ev) ==
   /\ Observe(ev) /\ status' = status /\ memo' = EmptyMemo
   /\ Clause(ev, "opt-effect", OptCallEffect(ev.maxIter, ev.fixFirst, [i \in DOMAIN ev.verts |-> ev.verts[i].pose]))
-  /\ Clause(ev, "opt-report", \E st \in Resolutions(ev.cls) : RepMatches(Outcome(st, 0, ev.maxIter), ev.rep))
+  /\ Clause(ev, "opt-report", RepMatches(Outcome(Favourable(ev.cls, ev.rep, ev.maxIter), 0, ev.maxIter), ev.rep))
   /\ Clause(ev, "opt-verbose", ev.rep.verboseOk)
   /\ Clause(ev, "opt-split", ev.rep.splitOk)
 
